@@ -199,7 +199,7 @@ func (z *BigInt) updateInner(src *big.Int) {
 		// Set or unset the negative sentinel, according to the argument's sign.
 		// We use unsafe because (*big.Int).Sign is too complex and prevents
 		// this method from being inlined.
-		if (*intStruct)(unsafe.Pointer(src)).neg {
+		if (*intStruct)(unsafe.Pointer(src)).neg && len(bits) > 0 {
 			z._inner = negSentinel
 		} else {
 			z._inner = nil
